@@ -24,10 +24,18 @@ LEVEL_TEXT = ("Lean: every conversion plan is an affine map m -> A*m + B whose c
               "(close_to_exact - hence absolute zero maps to absolute zero). Per run the kernel evaluates the model's planner on the "
               "graph regenerated from /repo for all 12 ordered pairs of scales (quick: unprefixed and kilo->milli; thorough: the 5x5 "
               "prefix grid, 300 plans) and checks the coefficients against C = K - 273.15, F = R - 459.67, R = 9/5 K within 1e-12. "
+              "FOR EVERY PREFIX AND EVERY STATE (Proofs/Flat.lean, Obligations/C10Flat.lean): on units whose dimension has exponent "
+              "gcd 1 the path search is proved to be a PURE function of the two graph tables (findPath_flat: it leaves the state alone "
+              "and equals flatPath ratios offsets) - so a conversion between units whose single factor is a temperature scale, with "
+              "whatever prefixes, after any public unit operations, returns (A*(prefix(source)*m) + B)/prefix(target) with (A, B) "
+              "the affine map of the pure path between the two scale units (convert_flat_single), and the kernel checks those 16 maps "
+              "on the regenerated graph against the exact definitions within 1e-12 (flat_temperature_ok; "
+              "temperature_conversions_all_prefixes; inhabited by 25 kilo-celsius -> milli-fahrenheit). "
               "The model planner is tied to the code by differential execution over all pairs x registered prefixes x magnitudes.")
-LEVEL_NOTE = ("Trusted: Lean kernel + Mathlib field/order lemmas; translator gen_init. The closed form for an ARBITRARY prefix is "
-              "established by evaluation on a finite prefix grid plus correspondence/oracle on all registered prefixes, not by a "
-              "symbolic proof about the planner. IEEE rounding is not modelled (exact rationals; float results compared at 1e-12).")
+LEVEL_NOTE = ("Trusted: Lean kernel + Mathlib field/order lemmas; translators gen_init/gen_graph. The closed form for an ARBITRARY "
+              "prefix is now a theorem about the model of the planner (single-factor units of a flat dimension), instantiated on the "
+              "regenerated graph; the prefix grid evaluation and the correspondence/oracle on all registered prefixes remain as the "
+              "tie to the code. IEEE rounding is not modelled (exact rationals; float results compared at 1e-12).")
 TECHNIQUE = "Lean 4 proof (plans are affine maps) + kernel evaluation of the planner model on regenerated data + differential correspondence + exact oracle"
 
 THEOREMS = [
@@ -35,6 +43,9 @@ THEOREMS = [
     "Measured.C10.round_trip", "Measured.C10.close_to_exact", "Measured.applyPlanV_affine",
     "Measured.applyPlan_val", "Measured.convert_ok",
     "Measured.Obligations.temperature_plans_exact", "Measured.Obligations.temperature_units_found",
+    "Measured.findPath_flat", "Measured.convert_flat_single", "Measured.flat_conversion_state_free",
+    "Measured.Obligations.FlatTemp.flat_temperature_ok", "Measured.Obligations.FlatTemp.temperature_conversions_all_prefixes",
+    "Measured.Obligations.FlatTemp.temperature_inhabited",
 ]
 # floats/Decimals vs the exact model: an affine conversion subtracts numbers of the size of the
 # offsets (273.15, 459.67), so rounding is amplified by the cancellation ratio; the generator keeps
@@ -42,6 +53,7 @@ THEOREMS = [
 RTOL = 1e-9
 QUICK = {"chunks": 4, "ops": 1200}
 THOROUGH = {"chunks": 16, "ops": 6000}
+LEAN_TARGETS = ["Props.C10", "Obligations.C10", "Obligations.C10Flat"]
 THOROUGH_TARGETS = ["ObligationsFull.C10Full"]
 RULE = ("(source scale, source prefix, target scale, target prefix, magnitude) tuples: pairs and prefixes enumerated "
         "round-robin so that every ordered pair x every registered SI prefix occurs, magnitudes from a fixed interesting set "
